@@ -258,7 +258,16 @@ def _symbolic_for(interp, s, frame, state, space):
     where = f"{frame.fname}:{s.lineno}"
     key = (frame.fname, "for", _loop_ordinal(frame, s))
     # zero-trip: split on hi <= lo unless decided
-    nonempty = interp.decide(sv.cmp(">", hi, lo))
+    maybe_empty = False
+    try:
+        nonempty = interp.decide(sv.cmp(">", hi, lo))
+    except Fork:
+        # the path condition does not decide whether the loop runs at all.  The closed forms below are also right for the
+        # zero-trip case when every effect is an accumulation / scatter (an empty Sigma is 0, an empty writer range selects
+        # nothing); last-value variables keep their previous value (see the post-state below).  Otherwise: fork as before.
+        if s.orelse:
+            raise
+        maybe_empty, nonempty = True, True
     if not nonempty:
         if s.orelse:
             interp.exec_body_single(s.orelse, frame)
@@ -443,12 +452,22 @@ def _symbolic_for(interp, s, frame, state, space):
     if goals0:
         st.side.append(_SideGoal("loop-init", z3.And(*goals0) if len(goals0) > 1 else goals0[0], st.all_assumptions(), where))
     # ---- post-state
+    if maybe_empty:
+        if other_touched or any(summ[0] not in ("sum", "last") for summ in summary_env.values()):
+            raise EngineError("possibly empty symbolic loop with a non-accumulation effect (object-valued variable / list / frame)")
     env_f, heap_f = state_at(hi)
     frame.env.clear()
     frame.env.update(env_f)
     for name, summ in summary_env.items():
         if summ[0] in ("last", "last_obj"):
             frame.env[name] = _instantiate(summ, hi, iz, lo, None)
+            if maybe_empty:
+                pre = pre_env.get(name, _MISSING)
+                if pre is not _MISSING and sv.is_scalar(norm(pre)):
+                    frame.env[name] = ite(sv.cmp(">", hi, lo), frame.env[name], norm(pre))
+                else:
+                    # not bound before the loop: unbound after a zero-trip loop -> a later read is a NameError path
+                    frame.env.pop(name, None)
     for sid, c in heap_f.items():
         if sid in summary_heap:
             st.heap[sid] = c
